@@ -269,3 +269,26 @@ def check(model, rep):
     # decided here too because the platform's body-frame statics clause rests on it
     from .c06 import statics_table
     statics_table(model, rep, robot, 'R11.4')
+
+    # ---------------------------------------------------------------- R11.6
+    # sumActuatorWrenches() / componentForces() / getActuatorForces() without an argument read the forces of the LAST statics evaluation
+    # (self._last_tau): each statics method records what it computed, on every path, whatever optional arguments it was called with
+    rep.rule('R11.6', 'every path of Robot.staticForces / staticForcesBody / staticForcesInv / staticForcesInvBody records the forces it worked with in '
+                      'self._last_tau (carryMassCalc forwards keyword arguments: a store that depends on how the method was called leaves the default '
+                      'of sumActuatorWrenches() stale)')
+    from .common_ops import flat_method as _fm
+    n_rec = 0
+    for name_ in ('staticForces', 'staticForcesBody', 'staticForcesInv', 'staticForcesInvBody'):
+        if name_ not in robot.methods:
+            continue
+        fm_ = _fm(robot, name_)
+        for pth in paths_of(fm_.node, fm_.params):
+            if pth.kind not in ('return', 'fall'):
+                continue
+            n_rec += 1
+            stored = [e for e in pth.events if e[0] == 'store' and e[1] == 'self._last_tau']
+            rep.ob('R11.6', fm_, '%s records self._last_tau (path ending at line %s)' % (name_, pth.ret_line), bool(stored),
+                   'a path through %s (conditions: %s) returns forces without recording them in self._last_tau: the force queries that default to the '
+                   'last evaluation then report an older evaluation' % (name_, '; '.join('%s is %s' % (k_[:50], v_) for k_, v_ in sorted(pth.facts.items()))[:200] or 'none'),
+                   line=pth.ret_line)
+    rep.floor('R11.6', 'paths of the statics methods', n_rec, 4)
